@@ -27,9 +27,6 @@ const (
 	ClsControl = "control" // positive controls of the analysis itself
 )
 
-// Classes lists the obligation classes in reporting order.
-var Classes = []string{ClsArith, ClsSub, ClsWide, ClsConv, ClsSigned, ClsPost, ClsClosure, ClsControl}
-
 // ClassDesc describes each class (rule description in the evidence).
 var ClassDesc = map[string]string{
 	ClsArith:   "every +, *, << on an unsigned word stays below 2^w, or its wrapped result is only ever observed modulo 2^k (modelled idiom)",
